@@ -141,8 +141,21 @@ func (r *resolver) module(y *Module) error {
 	}
 
 	for _, d := range y.Deviations() {
+		// a deviation may change the tree of a module this one imports, which is indexed
+		// by name already
+		var imported *Module
+		if target := Find(y, d.Ident()); target != nil {
+			if owner := RootModule(target); owner != y {
+				imported = owner
+			}
+		}
 		if err := r.applyDeviation(y, d); err != nil {
 			return err
+		}
+		if imported != nil {
+			if err := reindexByName(imported, make(map[Meta]bool)); err != nil {
+				return err
+			}
 		}
 	}
 
